@@ -4,6 +4,7 @@ Helper lemmas for the simulator model (C03, C11; reusable by C04).
 import Mathlib.Tactic
 import Mathlib.Data.Matrix.Mul
 import Mathlib.Algebra.BigOperators.Fin
+import Mathlib.LinearAlgebra.UnitaryGroup
 import NumqiProofs.PauliLemmas
 import NumqiModel.Sim
 
@@ -129,6 +130,14 @@ theorem upd_sel_of_agreeOff {t : Fin k → Fin n} (ht : Injective t) {x x' : Bit
   · have hi' : ∀ j, t j ≠ i := fun j e => hi ⟨j, e⟩
     rw [upd_apply_off _ _ hi', h i hi']
 
+theorem eq_of_agreeOff_of_sel {t : Fin k → Fin n} {x x' : Bits n}
+    (h : agreeOff x x' t = true) (hs : x.sel t = x'.sel t) : x = x' := by
+  rw [agreeOff_iff] at h
+  funext i
+  by_cases hi : ∃ j, t j = i
+  · obtain ⟨j, rfl⟩ := hi; exact congrFun hs j
+  · exact h i (fun j e => hi ⟨j, e⟩)
+
 theorem agreeOff_refl {t : Fin k → Fin n} (x : Bits n) : agreeOff x x t = true := by
   rw [agreeOff_iff]; intros; rfl
 
@@ -142,6 +151,51 @@ theorem agreeOff_trans {t : Fin k → Fin n} {x y z : Bits n} (h1 : agreeOff x y
 
 end Bits
 
+/-! ### controls -/
+
+theorem ctrlOn_iff {n : Nat} (isCtrl : Fin n → Bool) (x : Bits n) :
+    ctrlOn isCtrl x = true ↔ ∀ i, isCtrl i = true → x i = true := by
+  unfold ctrlOn
+  simp only [List.all_eq_true, List.mem_finRange, true_implies, Bool.or_eq_true, Bool.not_eq_true']
+  constructor
+  · intro h i hi; rcases h i with h | h
+    · rw [hi] at h; exact absurd h (by simp)
+    · exact h
+  · intro h i; cases hc : isCtrl i
+    · exact Or.inl rfl
+    · exact Or.inr (h i hc)
+
+/-- the write-back of `apply_control_n_gate` addresses the same entry as the direct update of the target bits -/
+theorem ctrl_upd_eq {n n' k : Nat} {isCtrl : Fin n → Bool} {rest : Fin n' → Fin n} {tNew : Fin k → Fin n'}
+    (hrest : Injective rest) (htn : Injective tNew) (hfree : ∀ i, isCtrl i = false ↔ ∃ m, rest m = i)
+    {x : Bits n} (hx : ctrlOn isCtrl x = true) (y : Bits k) :
+    (Bits.ones n).upd rest ((x.sel rest).upd tNew y) = x.upd (fun j => rest (tNew j)) y := by
+  rw [ctrlOn_iff] at hx
+  funext i
+  cases hc : isCtrl i
+  · obtain ⟨m, rfl⟩ := (hfree i).1 hc
+    rw [Bits.upd_apply_target hrest]
+    by_cases hm : ∃ j, tNew j = m
+    · obtain ⟨j, rfl⟩ := hm
+      rw [Bits.upd_apply_target htn, Bits.upd_apply_target (t := fun j => rest (tNew j)) (hrest.comp htn)]
+    · have h1 : ∀ j, tNew j ≠ m := fun j e => hm ⟨j, e⟩
+      rw [Bits.upd_apply_off _ _ h1, Bits.upd_apply_off]
+      · rfl
+      · intro j e; exact h1 j (hrest e)
+  · have h1 : ∀ m, rest m ≠ i := fun m e => by
+      have := (hfree i).2 ⟨m, e⟩; rw [hc] at this; exact absurd this (by simp)
+    rw [Bits.upd_apply_off _ _ h1, Bits.upd_apply_off _ _ (fun j => h1 (tNew j)), hx i hc]; rfl
+
+/-- a gate whose targets avoid the controls does not change whether the controls are all 1 -/
+theorem ctrlOn_of_agreeOff {n k : Nat} {isCtrl : Fin n → Bool} {t : Fin k → Fin n}
+    (hdisj : ∀ j, isCtrl (t j) = false) {x x' : Bits n} (h : Bits.agreeOff x x' t = true) :
+    ctrlOn isCtrl x = ctrlOn isCtrl x' := by
+  rw [Bits.agreeOff_iff] at h
+  rw [Bool.eq_iff_iff, ctrlOn_iff, ctrlOn_iff]
+  have key : ∀ i, isCtrl i = true → x i = x' i := fun i hi =>
+    h i (fun j e => by have := hdisj j; rw [e, hi] at this; exact absurd this (by simp))
+  exact ⟨fun hx i hi => by rw [← key i hi]; exact hx i hi, fun hx i hi => by rw [key i hi]; exact hx i hi⟩
+
 /-! ### sums -/
 
 theorem sumBits_eq_sum {M : Type} [AddCommMonoid M] (k : Nat) (f : Bits k → M) :
@@ -149,5 +203,181 @@ theorem sumBits_eq_sum {M : Type} [AddCommMonoid M] (k : Nat) (f : Bits k → M)
   unfold sumBits
   rw [← Fin.sum_univ_def]
   exact Fintype.sum_equiv (Bits.equivFin k) _ _ (fun _ => rfl)
+
+/-- in the proofs the model's conjugation is `star` -/
+@[reducible] def starConj (R : Type) [Star R] : Conj R := ⟨star⟩
+
+/-! ### flat arrays -/
+section arrays
+variable {α : Type} {n k : Nat}
+
+theorem getD_ofFn [Zero α] {N : Nat} (f : Fin N → α) (i : Nat) (h : i < N) : (Array.ofFn f).getD i 0 = f ⟨i, h⟩ := by
+  simp [Array.getD, h]
+
+theorem lookup_tabulate [Zero α] (ψ : Vec n α) : lookup (tabulate ψ) = ψ := by
+  funext x
+  unfold lookup tabulate
+  rw [getD_ofFn _ _ (Bits.toNat_lt x)]
+  simp [Bits.ofNat_toNat]
+
+theorem flat_div {N a b : Nat} (hb : b < N) : (a * N + b) / N = a := by
+  have hN : 0 < N := by omega
+  rw [Nat.add_comm, Nat.add_mul_div_right _ _ hN, Nat.div_eq_of_lt hb]; simp
+theorem flat_mod {N a b : Nat} (hb : b < N) : (a * N + b) % N = b := by
+  rw [Nat.add_comm, Nat.add_mul_mod_self_right, Nat.mod_eq_of_lt hb]
+theorem flat_lt {N a b : Nat} (ha : a < N) (hb : b < N) : a * N + b < N * N := by nlinarith
+
+theorem lookupMat_tabulateMat [Zero α] (U : Mat k α) : lookupMat (tabulateMat U) = U := by
+  funext r c
+  unfold lookupMat tabulateMat
+  rw [getD_ofFn _ _ (flat_lt (Bits.toNat_lt r) (Bits.toNat_lt c))]
+  simp only [flat_div (Bits.toNat_lt c), flat_mod (Bits.toNat_lt c), Bits.ofNat_toNat]
+end arrays
+
+/-! ### gate-list entries -/
+
+/-- the side conditions under which an entry of the gate list denotes its matrix: duplicate-free targets; for
+controlled entries `rest` enumerates exactly the non-control qubits and the renumbered targets are duplicate-free -/
+def Op.WF {n : Nat} {α : Type} : Op n α → Prop
+  | .unitary _ t => Injective t
+  | .control _ isCtrl rest tNew =>
+      Injective rest ∧ Injective tNew ∧ ∀ i, isCtrl i = false ↔ ∃ m, rest m = i
+  | .measure _ _ => True
+
+/-- the operator of the whole gate list: product of the entries' operators, last gate leftmost -/
+def circuitMatrix {n : Nat} {R : Type} [Semiring R] (c : List (Op n R)) : Matrix (Bits n) (Bits n) R :=
+  ((c.map fun g => (Matrix.of g.matrix : Matrix (Bits n) (Bits n) R)).reverse).prod
+
+theorem circuitMatrix_cons {n : Nat} {R : Type} [Semiring R] (g : Op n R) (c : List (Op n R)) :
+    circuitMatrix (g :: c) = circuitMatrix c * Matrix.of g.matrix := by
+  simp [circuitMatrix]
+
+theorem circuitMatrix_nil {n : Nat} {R : Type} [Semiring R] : circuitMatrix ([] : List (Op n R)) = 1 := by
+  simp [circuitMatrix]
+
+theorem mulVec_basis {n : Nat} {R : Type} [Semiring R] (M : Matrix (Bits n) (Bits n) R) (b x : Bits n) :
+    M.mulVec (basis b) x = M x b := by
+  simp only [Matrix.mulVec, dotProduct, basis, Bits.beq_iff]
+  rw [Finset.sum_eq_single b]
+  · simp
+  · intro w _ hw; simp [hw]
+  · intro h; exact absurd (Finset.mem_univ b) h
+
+/-! ### resolving raw gate-list entries (`RawOp.compile`) -/
+
+theorem distinct_iff (l : List Int) : distinct l = true ↔ l.Nodup := by
+  induction l with
+  | nil => simp [distinct]
+  | cons a l ih => simp [distinct, ih, List.nodup_cons]
+
+theorem validIndex_iff (n : Nat) (t : List Int) :
+    validIndex n t = true ↔ (∀ x ∈ t, 0 ≤ x ∧ x < n) ∧ t.Nodup := by
+  simp [validIndex, distinct_iff, List.all_eq_true]
+
+theorem mkTarget_val {n : Nat} {t : List Int} (h : ∀ x ∈ t, 0 ≤ x ∧ x < (n + 1 : Nat)) (j : Fin t.length) :
+    ((mkTarget n t j).val : Int) = t[j.val] := by
+  have hj := h _ (List.getElem_mem j.isLt)
+  simp only [mkTarget, List.getD_eq_getElem?_getD, List.getElem?_eq_getElem j.isLt, Option.getD_some, Fin.val_ofNat]
+  have : (t[j.val]).toNat < n + 1 := by omega
+  rw [Nat.mod_eq_of_lt this]
+  omega
+
+theorem mkTarget_injective {n : Nat} {t : List Int} (h : ∀ x ∈ t, 0 ≤ x ∧ x < (n + 1 : Nat)) (hd : t.Nodup) :
+    Injective (mkTarget n t) := by
+  intro j j' e
+  have h1 := mkTarget_val h j
+  have h2 := mkTarget_val h j'
+  rw [e] at h1
+  have : t[j.val] = t[j'.val] := by rw [← h1, ← h2]
+  exact Fin.ext ((List.Nodup.getElem_inj_iff hd).1 this)
+
+theorem freeQubits_mem (n : Nat) (c : List Int) (x : Nat) :
+    x ∈ freeQubits n c ↔ x < n ∧ c.contains (x : Int) = false := by
+  simp [freeQubits]
+
+theorem freeQubits_nodup (n : Nat) (c : List Int) : (freeQubits n c).Nodup :=
+  List.Nodup.filter _ List.nodup_range
+
+/-- what `_control_n_index` computes (`tmp0`, `index_map`, `ind_target_new`) is a valid sub-register:
+`rest` enumerates exactly the non-control qubits, the renumbered targets are distinct, and `rest ∘ tNew` is the
+original target tuple -/
+theorem ctrl_data {n n' : Nat} {c t : List Int} (hlen : (freeQubits (n + 1) c).length = n' + 1)
+    (hrange : ∀ x ∈ c ++ t, 0 ≤ x ∧ x < ((n + 1 : Nat) : Int)) (hnd : (c ++ t).Nodup) :
+    let rest : Fin (n' + 1) → Fin (n + 1) := fun m => Fin.ofNat (n + 1) ((freeQubits (n + 1) c).getD m.val 0)
+    let tNew : Fin t.length → Fin (n' + 1) :=
+      fun j => Fin.ofNat (n' + 1) ((freeQubits (n + 1) c).idxOf (t.getD j.val 0).toNat)
+    Injective rest ∧ Injective tNew ∧ (∀ i : Fin (n + 1), c.contains (i.val : Int) = false ↔ ∃ m, rest m = i)
+      ∧ ∀ j : Fin t.length, ((rest (tNew j)).val : Int) = t[j.val] := by
+  have hfn := freeQubits_nodup (n + 1) c
+  have hfm := freeQubits_mem (n + 1) c
+  set free := freeQubits (n + 1) c with hfree
+  intro rest tNew
+  have hget : ∀ m : Fin (n' + 1), free.getD m.val 0 = free[m.val]'(by rw [hlen]; exact m.isLt) := by
+    intro m; simp [List.getD_eq_getElem?_getD, List.getElem?_eq_getElem (show m.val < free.length by rw [hlen]; exact m.isLt)]
+  have hlt : ∀ m : Fin (n' + 1), free.getD m.val 0 < n + 1 := by
+    intro m; rw [hget]; exact ((hfm _).1 (List.getElem_mem _)).1
+  have htmem : ∀ j : Fin t.length, (t.getD j.val 0).toNat ∈ free := by
+    intro j
+    have hj : t[j.val] ∈ c ++ t := List.mem_append_right _ (List.getElem_mem j.isLt)
+    have hr := hrange _ hj
+    rw [hfm]
+    simp only [List.getD_eq_getElem?_getD, List.getElem?_eq_getElem j.isLt, Option.getD_some]
+    refine ⟨by omega, ?_⟩
+    have : ((t[j.val]).toNat : Int) = t[j.val] := by omega
+    rw [this]
+    have hdis := (List.nodup_append.1 hnd).2.2
+    simp only [List.contains_eq_mem, decide_eq_false_iff_not]
+    intro hmem
+    exact hdis _ hmem _ (List.getElem_mem j.isLt) rfl
+  have hidx : ∀ j : Fin t.length, free.idxOf (t.getD j.val 0).toNat < n' + 1 := by
+    intro j; rw [← hlen]; exact List.idxOf_lt_length_of_mem (htmem j)
+  refine ⟨?_, ?_, ?_, ?_⟩
+  · intro m m' e
+    have := congrArg Fin.val e
+    simp only [rest, Fin.val_ofNat] at this
+    rw [Nat.mod_eq_of_lt (hlt m), Nat.mod_eq_of_lt (hlt m'), hget, hget] at this
+    exact Fin.ext ((List.Nodup.getElem_inj_iff hfn).1 this)
+  · intro j j' e
+    have := congrArg Fin.val e
+    simp only [tNew, Fin.val_ofNat, Nat.mod_eq_of_lt (hidx j), Nat.mod_eq_of_lt (hidx j')] at this
+    have e2 : (t.getD j.val 0).toNat = (t.getD j'.val 0).toNat := (List.idxOf_inj (htmem j)).1 this
+    simp only [List.getD_eq_getElem?_getD, List.getElem?_eq_getElem j.isLt, List.getElem?_eq_getElem j'.isLt, Option.getD_some] at e2
+    have hr1 := hrange _ (List.mem_append_right _ (List.getElem_mem j.isLt))
+    have hr2 := hrange _ (List.mem_append_right _ (List.getElem_mem j'.isLt))
+    have e3 : t[j.val] = t[j'.val] := by omega
+    exact Fin.ext ((List.Nodup.getElem_inj_iff (List.nodup_append.1 hnd).2.1).1 e3)
+  · intro i
+    constructor
+    · intro hi
+      have : i.val ∈ free := (hfm _).2 ⟨i.isLt, hi⟩
+      obtain ⟨m, hm, hmi⟩ := List.getElem_of_mem this
+      refine ⟨⟨m, by rw [← hlen]; exact hm⟩, Fin.ext ?_⟩
+      simp only [rest, Fin.val_ofNat]
+      have : free.getD m 0 = i.val := by simp [List.getD_eq_getElem?_getD, List.getElem?_eq_getElem hm, hmi]
+      rw [this, Nat.mod_eq_of_lt i.isLt]
+    · rintro ⟨m, rfl⟩
+      simp only [rest, Fin.val_ofNat]
+      rw [Nat.mod_eq_of_lt (hlt m), hget]
+      exact ((hfm _).1 (List.getElem_mem _)).2
+  · intro j
+    have hx := htmem j
+    have h1 : free.getD (free.idxOf (t.getD j.val 0).toNat) 0 = (t.getD j.val 0).toNat := by
+      rw [List.getD_eq_getElem?_getD, List.getElem?_idxOf hx]; rfl
+    simp only [rest, tNew, Fin.val_ofNat, Nat.mod_eq_of_lt (hidx j)]
+    rw [h1, Nat.mod_eq_of_lt ((hfm _).1 hx).1]
+    have hr := hrange _ (List.mem_append_right _ (List.getElem_mem j.isLt))
+    simp only [List.getD_eq_getElem?_getD, List.getElem?_eq_getElem j.isLt, Option.getD_some]
+    omega
+
+/-- the index tuple an entry refers to, and its control qubits -/
+def Op.targets {n : Nat} {α : Type} : Op n α → List (Fin n)
+  | .unitary _ t => List.ofFn t
+  | .control _ _ rest tNew => List.ofFn fun j => rest (tNew j)
+  | .measure s _ => List.ofFn s
+
+def Op.controls {n : Nat} {α : Type} : Op n α → List (Fin n)
+  | .control _ isCtrl _ _ => (List.finRange n).filter isCtrl
+  | _ => []
+
 
 end Numqi
